@@ -76,7 +76,7 @@ def shape_of(r):
 def run(tier):
     rp = Report("C12", tier)
     rng = random.Random(common.seed())
-    theorems = ["Props.C12.C12_recovery_terminates", "Props.C12.C12_errors_iff_strict_fails", "Props.C12.C12_recovery_segments"]
+    theorems = ["Props.C12.C12_recovery_terminates", "Props.C12.C12_errors_iff_strict_fails", "Props.C12.C12_recovery_segments", "Props.C12.C12_errors_located_in_own_segment"]
     try:
         with common.Lock():
             common.stage_harness()
@@ -136,6 +136,7 @@ def run(tier):
     # termination + iff + model correspondence on recorded tables (scripts with stray semicolons, soup, no-separator input)
     ins = [loopgen.join(rng, sg) for sg in scripts[: n // 2]] + loopgen.soup(rng, n // 2, maxlen=30) + loopgen.nospace_multi(rng, n // 10)
     ins += [";", ";;;", "SELECT", "SELECT SELECT SELECT", ") ) )", "SELECT 1 ; ) ; SELECT 2", "x", "INSERT INTO ; UPDATE ; DELETE"]
+    ins += [rng.choice(["\n", "\n\n  ", "  ", "\t", " \n"]) + x for x in ins[:n // 4]]   # white space in front of the first token
     ins = list(dict.fromkeys(ins))
     pl, lrows = lc.run_loops(ins)
     if pl.returncode != 0 or len(lrows) != len(ins):
@@ -180,6 +181,20 @@ def run(tier):
                           "theorem": "Props/C12.v theorems are about Model/Loops.v recover/sync, which no longer reproduce the real loop",
                           "explanation": "the Coq model of parseWithRecovery/synchronize, run on the recorded parseStatement table, differs from the real result"},
                          "recover_model_mismatch_%d" % len(rp.violations), no_input=not failing)
+    locbad = []
+    nloc = 0
+    for r in lrows:
+        rec = lc.entry(r, "gosqlx.ParseWithRecovery")
+        nloc += len((rec or {}).get("rec_errs") or []) if r.get("tok_pos") else 0
+        mm = lc.err_location_mismatches(r)
+        if mm:
+            locbad.append((r, mm))
+    rp.cov["error_locations_compared"] = nloc
+    rp.obligation("correspondence: every recovery error carries the position of token err_loc (the cursor where parseStatement gave up) in the text passed in, %d errors" % nloc, not locbad)
+    for r, mm in locbad[:2]:
+        rp.violation({"kind": "location", "sql": r["sql"], "mismatches": mm[:5],
+                      "explanation": "a recovery error is not located at the token under the cursor when its statement failed (positions of the text that was passed in): C12_errors_located_in_own_segment is about that token"},
+                     "err_location_%d" % len(rp.violations))
     hyp = {}
     for r in lrows:
         for h in lc.ps_hypotheses(r):
@@ -211,7 +226,7 @@ def replay(path):
         _, rows = lc.run_loops([d["sql"]])
         r = rows[0]
         rec, par = lc.entry(r, "gosqlx.ParseWithRecovery"), lc.entry(r, "Parser.Parse")
-        bad = bool(rec.get("panic")) or (len(rec.get("rec_errs") or []) > 0) != (not par["accepted"]) or bool(lc.ps_hypotheses(r))
+        bad = bool(rec.get("panic")) or (len(rec.get("rec_errs") or []) > 0) != (not par["accepted"]) or bool(lc.ps_hypotheses(r)) or bool(lc.err_location_mismatches(r))
         segs = [x.strip() for x in d["sql"].split(";") if x.strip()]
         if not bad and segs and "'" not in d["sql"]:
             pr = common.vh(["recseg"], input=json.dumps({"segs": segs}) + "\n")
